@@ -233,3 +233,32 @@ Lemma source_tables :
   gen_out_mandatory = [0; 1; 2; 3; 4; 5; 6; 7] /\ gen_out_numeric = [5; 6; 7; 8; 9; 10] /\ length gen_out_fields = 13%nat /\
   gen_intra_mandatory = [0; 1; 2; 3; 4; 5; 6; 7; 8] /\ gen_intra_numeric = [6; 7; 8] /\ length gen_intra_fields = 11%nat.
 Proof. repeat split; reflexivity. Qed.
+
+(** the one way the split can fail (finding F14): the second construction of the acquisition receives the derived fiat
+    values explicitly and rejects a value that is zero at 13 decimals -- 1e-8 coins at a price of 1e-6 with a fee of 1e-11 *)
+Lemma dust_split_refuted :
+  exists raw tx, mk_in raw = Ok tx /\ 0 < i_crypto_fee tx /\ ri_fiat_in_no_fee raw = None /\ split_in tx = Err EValue /\
+                 mk_in {| ri_row := ri_row raw; ri_ts := ri_ts raw; ri_exch := ri_exch raw; ri_holder := ri_holder raw; ri_type := ri_type raw;
+                          ri_spot := ri_spot raw; ri_crypto_in := ri_crypto_in raw; ri_crypto_fee := None; ri_fiat_in_no_fee := None;
+                          ri_fiat_in_with_fee := None; ri_fiat_fee := None |} <> Err EValue.
+Proof.
+  exists {| ri_row := 4; ri_ts := {| utc_us := 0; off_s := 0 |}; ri_exch := 0; ri_holder := 0; ri_type := BUY; ri_spot := 100000;
+            ri_crypto_in := 1000; ri_crypto_fee := Some 1; ri_fiat_in_no_fee := None; ri_fiat_in_with_fee := None; ri_fiat_fee := None |}.
+  eexists. split; [vm_compute; reflexivity|]. repeat split; try (vm_compute; reflexivity). vm_compute. discriminate.
+Qed.
+
+(** and the only one: when the derived fiat values are positive at 13 decimals the split succeeds *)
+Lemma split_in_ok a :
+  dgtb (i_fiat_in_no_fee a) dzero = true -> dgtb (i_fiat_in_with_fee a) dzero = true -> dgeb (i_fiat_fee a) dzero = true ->
+  exists a', split_in a = Ok a'.
+Proof.
+  unfold split_in, dgtb, dgeb, dltb, deqb, dlt, dge, dgt, deq, optb. intros H1 H2 H3.
+  destruct (cmp13 (i_fiat_in_no_fee a) dzero) as [r1|]; simpl in *; [|discriminate].
+  destruct (cmp13 (i_fiat_in_with_fee a) dzero) as [r2|]; simpl in *; [|discriminate].
+  destruct (cmp13 (i_fiat_fee a) dzero) as [r3|]; simpl in *; [|discriminate].
+  assert (r1 >=? 0 = true) by (apply Z.geb_le; apply Z.gtb_lt in H1; lia).
+  assert (r1 =? 0 = false) by (apply Z.eqb_neq; apply Z.gtb_lt in H1; lia).
+  assert (r2 >=? 0 = true) by (apply Z.geb_le; apply Z.gtb_lt in H2; lia).
+  assert (r2 =? 0 = false) by (apply Z.eqb_neq; apply Z.gtb_lt in H2; lia).
+  rewrite H, H0, H4, H5, H3. simpl. eexists. reflexivity.
+Qed.
